@@ -68,7 +68,7 @@ def run_case(case):
 
     def fail(sig, msg):
         if len(out["viol"]) < 6:
-            out["viol"].append({"sig": sig, "msg": msg + "\n--- module a ---\n" + progs.render_module(prog, "a")[:1500]})
+            out["viol"].append({"sig": sig, "msg": msg + "\n" + progs.render_all(prog)[:3000]})
 
     with env.Scratch() as sc:
         maps = {}
@@ -106,7 +106,8 @@ def run_case(case):
                 by_seed.setdefault(json.dumps({n: v[n] for n in bad}, sort_keys=True), []).append("seed=%d/order=%d" % (hs, o))
             only_seed = all(len({x.split("/")[0] for x in runs}) == len(runs) or True for runs in by_seed.values())
             groups = list(by_seed.values())
-            varies_with = "hash seed" if len({tuple(sorted(r.split("/")[1] for r in g)) for g in groups}) == 1 else "definition or query order"
+            varies_with = ("hash seed" if all({x.split("/")[0] + "/" + o for x in g for o in {y.split("/")[1] for gg in groups for y in gg}} <= set(g)
+                                            for g in groups) else "definition or query order")
             fail("versions of an unchanged program differ between processes (varies with the %s)" % varies_with,
                  "program %d/%d: functions %s got different versions; groups of runs that agree: %s"
                  % (case["seed"], case["idx"], bad, groups))
